@@ -282,3 +282,61 @@ class BoundsTracer:
 
 
 TRACER = BoundsTracer()
+
+
+# ---------------------------------------------------------------------------------------------
+# CLI observer
+# ---------------------------------------------------------------------------------------------
+class CliResult:
+    __slots__ = ("rc", "out", "err", "exc")
+
+    def __init__(self, rc, out, err, exc):
+        self.rc, self.out, self.err, self.exc = rc, out, err, exc
+
+
+def run_main(args):
+    """graphtage.__main__.main(argv) in-process, observed at the boundary a user sees: stdout text, stderr text,
+    return value / exit status, escaped exception.  Every call behaves like a fresh process as far as logging
+    goes (basicConfig is effective only once per process, so the root handlers are cleared first)."""
+    import graphtage.__main__ as gm
+    from gv.core import CaseTimeout
+    out, err = KeepStringIO(), KeepStringIO()
+    old_out, old_err = sys.stdout, sys.stderr
+    root = logging.getLogger()
+    saved = root.handlers[:]
+    root.handlers = []
+    sys.stdout, sys.stderr = out, err
+    rc, exc = None, None
+    try:
+        try:
+            rc = gm.main(["graphtage"] + list(args))
+        except SystemExit as ex:
+            rc = ex.code if isinstance(ex.code, int) else (0 if ex.code is None else 1)
+        except CaseTimeout:
+            raise
+        except BaseException as ex:  # noqa
+            exc = ex
+    finally:
+        sys.stdout, sys.stderr = old_out, old_err
+        for h in root.handlers:
+            try:
+                h.close()
+            except Exception:
+                pass
+        root.handlers = saved
+    return CliResult(rc, out.value() or "", err.value() or "", exc)
+
+
+MARK_CHARS = ("̶", "̟")
+
+
+def has_change_marks(text: str) -> bool:
+    """Colour rendering: a red/green background or a strike/under-plus combining mark."""
+    import re
+    if any(m in text for m in MARK_CHARS):
+        return True
+    for m in re.finditer(r"\x1b\[([0-9;]*)m", text):
+        for code in m.group(1).split(";"):
+            if code in ("41", "42", "101", "102"):
+                return True
+    return False
